@@ -40,6 +40,7 @@ def run(ctx):
         ctx.guard("C04", "runlimit", lambda: normal.run_limit_agreement(ctx, prog))
         ctx.guard("C04", "tables", lambda: data.base64_tables(ctx, prog))
         ctx.guard("C04", "summaries", lambda: summary.check(ctx, prog, 'parser_state::|ParseErrorEither|::from_bytes|::from_str', floor=4))
+        ctx.guard("C04", "path summaries", lambda: summary.check_paths(ctx, prog, 'parser_state::|ParseErrorEither|::from_bytes|::from_str', floor=0))
         if c == "unsafe":
             # every belief (invariant!) on the parse path is backed by a run-time check of the safe build: an unbacked one (say, a bound
             # on how much text a normalising parser may consume) panics in debug builds and is undefined behaviour under `unsafe`
